@@ -146,8 +146,10 @@ def gen_grid(rng, model, desc, max_cells, alpha=None, ratio_max=10.0, min_axis=8
         if hi <= 0:
             hi = 1.0
         lo = 0.0
+        if rng.random() < 0.25:
+            lo = float(round(rng.uniform(0, 0.04) * hi, 2))      # grid not starting at 0: c[1] - c[0] may differ from delta by an ulp
         cells = rng.randrange(min_axis, per_axis + 1)
-        dl = hi / cells
+        dl = (hi - lo) / cells
         if rng.random() < 0.5:
             cand = [x for x in DECIMAL if hi / x <= per_axis * 1.5 and hi / x >= min_axis]
             if cand:
